@@ -3,7 +3,7 @@
 set -e
 cd "$(dirname "$0")"
 mkdir -p build evidence replays
-( cd coq && coq_makefile -f _CoqProject -o Makefile >/dev/null && timeout 3000 make -j16 >build.log 2>&1 || { tail -40 build.log; exit 1; } )
+python3 -c "import sys; sys.path.insert(0,'lib'); import vlib; ok,log=vlib.coq_make(); print(log[-3000:] if not ok else 'coq build ok'); sys.exit(0 if ok else 1)"
 # warm the Go build cache and the harness binary
 python3 - <<'PY'
 import sys, os
